@@ -8,9 +8,9 @@ From Coq Require Import NArith List Bool Arith.
 Import ListNotations.
 From BT Require Import Base.Bytes.
 
-Definition glyph := N.
+Notation glyph := N (only parsing).
 Definition blank : glyph := 32%N.
-Definition row := list glyph.
+Notation row := (list N) (only parsing).
 
 Inductive tok :=
 | TChar (g : glyph)
